@@ -86,6 +86,11 @@ Qed.
 Theorem C02_built_ok_unfolds : forall (s : stateT) sb rc, built_ok s sb rc -> sub_ok (rows s) sb /\ s_from sb <= s_to sb /\ s_to sb <= synced s.
 Proof. intros s sb rc (H1 & _ & _ & H4 & H5 & _). exact (conj H1 (conj H5 H4)). Qed.
 
+(* the records a certificate is built from carry the Agglayer's verdicts (no stale "settled" / "in error") *)
+Theorem C02_local_view_is_agglayer_view : forall (s : stateT) sb rc, Inv s -> built_ok s sb rc ->
+  forall r, In r (rows s) -> exists c, In c (agg s) /\ a_id c = cid r /\ a_height c = height r /\ a_st c = st r.
+Proof. exact (local_view_is_agglayer_view hash bev cev b_leaf b_dc tree start_block start_ler cert_type repr root_of). Qed.
+
 (* Second sentence: no certificate is submitted while an earlier one is still undecided at the Agglayer *)
 Theorem C02_no_submission_while_undecided : forall (s : stateT) e s' subs,
   Inv s -> step s e = (s', subs) -> subs <> [] -> all_closed (agg s).
@@ -180,6 +185,7 @@ Print Assumptions C02_step_preserves_Inv.
 Print Assumptions C02_reachable_Inv.
 Print Assumptions C02_submissions_well_formed.
 Print Assumptions C02_built_ok_unfolds.
+Print Assumptions C02_local_view_is_agglayer_view.
 Print Assumptions C02_no_submission_while_undecided.
 Print Assumptions C02_settled_exactly_once.
 Print Assumptions C02_every_schedule.
